@@ -254,6 +254,9 @@ def check_config(cfg, w, rep):
     sub = Report("C02")
     c02.check_config(cfg, w, sub)
     _import(cfg, rep, sub, ("d-replacing-rename",), "e")
+    # (e') "storing the same bytes again ... leaves the stored copy byte-identical, and all those keys resolve to it": no write,
+    #      commit or link path can delete a content file — only the removal API (shared by address)
+    check_who_may_remove_content(cfg, w, rep, "e")
     # (b') the address equals the digest of the bytes: what is fed to the digest builder is exactly what was written / read —
     # the digest/sink agreement of the content writers (C02 a) and, with link_to, the exact-slice clause of the linkers' read
     # methods (C19 b), re-checked here
